@@ -28,6 +28,11 @@ type Tol struct {
 	PerGlyph func(g *type1.Glyph) float64
 	// DateToSecond compares creation times by their Unix seconds.
 	DateToSecond bool
+	// WidthQuantised: b's widths must be whole numbers within 0.5 of a's.
+	WidthQuantised bool
+	// BlueScaleSnap: a BlueScale within 1e-6 of 0.039625 is expected to come
+	// back as exactly 0.039625.
+	BlueScaleSnap bool
 }
 
 func near(a, b, abs, rel float64) bool {
@@ -81,6 +86,14 @@ func DiffGlyph(name string, a, b *type1.Glyph, tol Tol) string {
 	wa, wya := a.WidthX, a.WidthY
 	if tol.RoundWidth {
 		wa, wya = math.Round(wa), math.Round(wya)
+	}
+	if tol.WidthQuantised {
+		for _, w := range [][2]float64{{a.WidthX, b.WidthX}, {a.WidthY, b.WidthY}} {
+			if w[1] != math.Trunc(w[1]) || math.Abs(w[0]-w[1]) > 0.5 {
+				return fmt.Sprintf("glyph %q: width %v is not %v rounded to a whole unit", name, w[1], w[0])
+			}
+		}
+		wa, wya = b.WidthX, b.WidthY
 	}
 	if !near(wa, b.WidthX, tol.Width, 0) {
 		return fmt.Sprintf("glyph %q: WidthX %v, want %v", name, b.WidthX, wa)
@@ -188,7 +201,11 @@ func DiffFont(a, b *type1.Font, tol Tol) string {
 	if !int16s(pa.OtherBlues, pb.OtherBlues) {
 		return fmt.Sprintf("OtherBlues = %v, want %v", pb.OtherBlues, pa.OtherBlues)
 	}
-	if !near(pa.BlueScale, pb.BlueScale, tol.BlueScale, 0) {
+	if tol.BlueScaleSnap && math.Abs(pa.BlueScale-0.039625) <= 1e-6 {
+		if pb.BlueScale != 0.039625 && pb.BlueScale != pa.BlueScale {
+			return fmt.Sprintf("BlueScale = %v, want 0.039625 (snapped from %v) or unchanged", pb.BlueScale, pa.BlueScale)
+		}
+	} else if !near(pa.BlueScale, pb.BlueScale, tol.BlueScale, 0) {
 		return fmt.Sprintf("BlueScale = %v, want %v", pb.BlueScale, pa.BlueScale)
 	}
 	if pa.BlueShift != pb.BlueShift {
